@@ -416,6 +416,14 @@ def run_task(args):
     except Exception as e:
         out["error"] = f"{type(e).__name__}: {e}\n" + traceback.format_exc(limit=8)
         vk.obl.append({"name": vk.prefix + "/run", "status": "error", "backend": "checker", "seconds": 0, "detail": out["error"][:1500], "family": vk.prefix + "/run"})
+        if c.engine in ("E1", "ground") and _raised_in_real_code(e.__traceback__):
+            # the exception came out of the real code.  A limit of the symbolic stand-ins or a defect?  Decide natively:
+            # if the real code, run by CPython on real numpy at an admissible input (a point inside `requires`), raises
+            # too, the contract's implicit clause "an admissible call returns" is refuted -- with that input as witness
+            rep = _native_exception(c, cfg, vk, rng, tier)
+            if rep is not None:
+                vk.obl[-1].update(status="refuted", backend="native", detail=f"the real code raises on an admissible input (symbolic run and native float run alike): {rep['actual']}", replay=rep)
+                out["error"] = None
     if tracing:
         import sys as _sys
         import threading as _th
@@ -469,6 +477,47 @@ def run_task(args):
             out["obl"].append({"name": n + "/second-opinion", "status": "error", "backend": "z3", "seconds": 0, "detail": "z3 found a counter-model for an identity the ring engine discharged (engine inconsistency)", "family": "second-opinion"})
     out["seconds"] = round(time.time() - t0, 3)
     return out
+
+
+def _raised_in_real_code(tb):
+    """does the traceback pass through a frame of the felupe package (below the contract / kernel frames)?"""
+    while tb is not None:
+        fn_ = tb.tb_frame.f_code.co_filename
+        if "/felupe/" in fn_ and "/site-packages/" not in fn_:
+            return True
+        tb = tb.tb_next
+    return False
+
+
+def _native_exception(c, cfg, vk, rng, tier):
+    """run the contract natively at a point inside requires; a replay record if the real code raises there too"""
+    pt = {}
+    if vk.samplers:
+        pt = None
+        for k in range(300):
+            cand = sample_point(vk.samplers, rng)
+            try:
+                ok = _assumptions_hold(_envgens(cand))
+            except Exception:
+                ok = False
+            if ok:
+                pt = cand
+                break
+        if pt is None:
+            return None
+    fv = VK(c, cfg, "float", point=pt, rng=rng, tier=tier)
+    try:
+        with symnp.native():
+            c.fn(fv, cfg)
+    except Skip:
+        return None
+    except Exception as e2:
+        if not _raised_in_real_code(e2.__traceback__):
+            return None
+        where = traceback.extract_tb(e2.__traceback__)
+        last = [f for f in where if "/felupe/" in f.filename and "/site-packages/" not in f.filename][-1]
+        return {"obligation": vk.prefix + "/run", "contract": c.name, "cfg": cfg, "property": c.prop, "kind": "exception", "confirmed": True, "point": pt, "expected": "the call returns (admissible input)", "actual": f"{type(e2).__name__}: {str(e2)[:300]} (raised at {os.path.relpath(last.filename, '/repo') if last.filename.startswith('/repo') else last.filename}:{last.lineno} in {last.name})"}
+    return None
 
 
 def _samples(vk, k=2):
